@@ -340,3 +340,21 @@ class time_limit:
         signal.alarm(0)
         signal.signal(signal.SIGALRM, self.old)
         return False
+
+
+_SPELL = {"n": 0}
+
+
+def spell_bool(b):
+    """The same truth value in the spellings callers use: the literal, a NumPy bool (the result of a computed condition), 0 / 1."""
+    import numpy
+    _SPELL["n"] += 1
+    k = _SPELL["n"] % 3
+    return [bool(b), numpy.bool_(b), int(bool(b))][k]
+
+
+def spell_int(n):
+    """An integer as a Python int or as a NumPy integer (an element of an array, the result of Generator.integers)."""
+    import numpy
+    _SPELL["n"] += 1
+    return [int(n), numpy.int64(n), int(n)][_SPELL["n"] % 3]
